@@ -109,12 +109,42 @@ def gen_instance(rng, graph=None, max_comps=6, max_agents=4, tiny=False, asymmet
     if graph == "factor_graph" and case["constraints"] and rng.random() < secp_hint_p:
         # SECP-like "model" hint: a factor hosted with one of the variables of its scope
         c = rng.choice(case["constraints"])
-        hints["host_with"][c["name"]] = [rng.choice(c["scope"])]
+        v_ = rng.choice(c["scope"])
+        hints["host_with"][c["name"]] = [v_]
+        if hint_bias and rng.random() < 0.6 and not any(v_ in ns for ns in hints["must_host"].values()):
+            # ... and that variable is itself pinned on an agent by a must_host hint (an actuator variable with its model);
+            # the model is heavier than the variable and the agent's capacity is just below / at / above what both need
+            pinned_on = rng.choice(agents)
+            hints["must_host"].setdefault(pinned_on, []).append(v_)
+            if rng.random() < 0.7:
+                fp[c["name"]], fp[v_] = rng.choice([3, 5]), 1
+                need = sum(fp[n] for n in hints["must_host"][pinned_on]) + fp[c["name"]]
+                for d_ in adefs:
+                    if d_["name"] == pinned_on:
+                        d_["capacity"] = max(0, need + rng.choice([-2, -1, 0, 0, 1]))
     elif rng.random() < 0.25 and len(names) >= 2:
         x, y = rng.sample(names, 2)
         hints["host_with"][x] = [y]
     return {"graph": graph, "case": case, "footprints": fp, "agents": adefs, "default_route": default_route,
             "hints": hints, "load_seed": rng.randint(0, 10 ** 6), "zero_mode": zero_mode, "capkind": capkind, "asymmetric_routes": asym}
+
+
+# The footprint functions are the same two function objects for every instance of a process, as an algorithm module's
+# computation_memory / communication_load are: a method that remembers what it computed for (function, node) must not serve
+# it again for an equal node of another graph.
+_CURRENT = {"fp": {}, "loads": {}, "rng": None}
+
+
+def computation_memory(node):
+    return _CURRENT["fp"][node.name]
+
+
+def communication_load(node, target):
+    key = tuple(sorted((node.name, target)))  # symmetric, as the real footprint functions are per link
+    loads = _CURRENT["loads"]
+    if key not in loads:
+        loads[key] = _CURRENT["rng"].choice([1, 2, 5, 10])
+    return loads[key]
 
 
 def build(inst):
@@ -127,20 +157,9 @@ def build(inst):
     agents = [AgentDef(d["name"], capacity=d["capacity"], default_hosting_cost=d["default_hosting_cost"],
                        hosting_costs=dict(d["hosting_costs"]), default_route=inst["default_route"], routes=dict(d["routes"]))
               for d in inst["agents"]]
-    fp = inst["footprints"]
     import random as _r
 
-    lr = _r.Random(inst["load_seed"])
-    loads = {}
-
-    def computation_memory(node):
-        return fp[node.name]
-
-    def communication_load(node, target):
-        key = tuple(sorted((node.name, target)))  # symmetric, as the real footprint functions are per link
-        if key not in loads:
-            loads[key] = lr.choice([1, 2, 5, 10])
-        return loads[key]
+    _CURRENT["fp"], _CURRENT["loads"], _CURRENT["rng"] = inst["footprints"], {}, _r.Random(inst["load_seed"])
 
     # make the load table independent of call order
     for n in cg.nodes:
